@@ -1,6 +1,8 @@
 from abc import ABC, abstractmethod
 import getpass
 import sys, os, pickle
+import hashlib
+from io import BytesIO
 import tempfile
 import types
 import re
@@ -367,6 +369,7 @@ class Lark(Serialize, Generic[_Return_T]):
                         "cache_grammar" if self.options.cache_grammar else "cache", username, cache_sha256, *sys.version_info[:2])
 
                 old_options = self.options
+                old_source_path = self.source_path
                 try:
                     with FS.open(cache_fn, 'rb') as f:
                         logger.debug('Loading grammar from cache: %s', cache_fn)
@@ -374,11 +377,17 @@ class Lark(Serialize, Generic[_Return_T]):
                         for name in (set(options) - _LOAD_ALLOWED_OPTIONS):
                             del options[name]
                         file_sha256 = f.readline().rstrip(b'\n')
-                        cached_used_files = pickle.load(f)
-                        if file_sha256 == cache_sha256.encode('utf8') and verify_used_files(cached_used_files):
-                            cached_parser_data = pickle.load(f)
-                            self._load(cached_parser_data, **options)
-                            return
+                        # The second line holds the length and the checksum of the pickled data that follows
+                        data_len, _, data_sha256 = f.readline().rstrip(b'\n').partition(b' ')
+                        if file_sha256 == cache_sha256.encode('utf8') and data_len.isdigit():
+                            cached_data = f.read(int(data_len))
+                            if hashlib.sha256(cached_data).hexdigest().encode('utf8') == data_sha256:
+                                cached_f = BytesIO(cached_data)
+                                cached_used_files = pickle.load(cached_f)
+                                if verify_used_files(cached_used_files):
+                                    cached_parser_data = pickle.load(cached_f)
+                                    self._load(cached_parser_data, **options)
+                                    return
                 except FileNotFoundError:
                     # The cache file doesn't exist; parse and compose the grammar as normal
                     pass
@@ -386,8 +395,10 @@ class Lark(Serialize, Generic[_Return_T]):
                     logger.exception("Failed to load Lark from cache: %r. We will try to carry on.", cache_fn)
 
                     # In theory, the Lark instance might have been messed up by the call to `_load`.
-                    # In practice the only relevant thing that might have been overwritten should be `options`
+                    # In practice the only relevant things that might have been overwritten should be
+                    # `options` and `source_path` (which relative imports are resolved against)
                     self.options = old_options
+                    self.source_path = old_source_path
 
 
             # Parse the grammar file and compose the grammars
@@ -485,9 +496,13 @@ class Lark(Serialize, Generic[_Return_T]):
             try:
                 with FS.open(cache_fn, 'wb') as f:
                     assert cache_sha256 is not None
+                    cached_f = BytesIO()
+                    pickle.dump(used_files, cached_f)
+                    self.save(cached_f, _LOAD_ALLOWED_OPTIONS)
+                    cached_data = cached_f.getvalue()
                     f.write(cache_sha256.encode('utf8') + b'\n')
-                    pickle.dump(used_files, f)
-                    self.save(f, _LOAD_ALLOWED_OPTIONS)
+                    f.write(b'%d %s\n' % (len(cached_data), hashlib.sha256(cached_data).hexdigest().encode('utf8')))
+                    f.write(cached_data)
             except IOError as e:
                 logger.exception("Failed to save Lark to cache: %r.", cache_fn, e)
 
